@@ -191,6 +191,38 @@ pub fn catalogue() -> Vec<(String, String)> {
         add(&format!("deep-power:{}", d), format!("pragma solidity 0.8.17;\ncontract C {{ function f(uint256 a) public returns (uint256) {{ return {}a; }} }}", "a ** ".repeat(d)));
         add(&format!("deep-calls:{}", d), format!("pragma solidity 0.8.17;\ncontract C {{ function f(uint256 a) public returns (uint256) {{ return {}a{}; }} }}", "f(".repeat(d), ")".repeat(d)));
     }
+    // omitted slots: every place that holds a parameter list x every way of leaving a slot empty (the parser decides which it accepts)
+    for (si, slots) in ["(uint256, )", "(, uint256)", "(uint256 a, , uint256 b)", "(,)", "(, )", "(uint256 a,)", "(, , uint256 c)", "(uint256[] memory a, )"].iter().enumerate() {
+        let places: [(&str, String); 12] = [
+            ("function-parameters", format!("contract C {{ function f{} public {{ }} }}", slots)),
+            ("function-returns", format!("contract C {{ function f() public returns {} {{ }} }}", slots)),
+            ("function-type-parameters", format!("contract C {{ function {} external cb; }}", slots)),
+            ("function-type-returns", format!("contract C {{ function (uint256) external returns {} cb; }}", slots)),
+            ("local-function-type-returns", format!("contract C {{ function f() public {{ function (uint256) internal returns {} g; g; }} }}", slots)),
+            ("local-function-type-parameters", format!("contract C {{ function f() public {{ function {} internal g; g; }} }}", slots)),
+            ("try-returns", format!("contract C {{ function f(C c) public {{ try c.g() returns {} {{ }} catch {{ }} }} function g() external returns (uint256, uint256) {{ }} }}", slots)),
+            ("event-error-parameters", format!("contract C {{ event E{}; error R{}; }}", slots, slots)),
+            ("modifier-parameters", format!("contract C {{ modifier m{} {{ _; }} }}", slots)),
+            ("constructor-parameters", format!("contract C {{ constructor{} {{ }} }}", slots)),
+            ("declaration-tuple", format!("contract C {{ function f() public {{ {} = g(); }} function g() internal returns (uint256, uint256) {{ }} }}", slots)),
+            ("parameter-of-function-type", format!("contract C {{ function f(function (uint256) external returns {} cb) public {{ }} mapping(uint256 => function {} external) m; }}", slots, slots)),
+        ];
+        for (place, text) in places.iter() {
+            add(&format!("omitted-slots:{}:{}", place, si), format!("pragma solidity 0.8.17;\n{}\n", text));
+        }
+    }
+    // wide nodes: long lists with one entry of another kind in the middle (array literals, arguments, tuples, named arguments, inheritance lists)
+    for n in [8usize, 33, 65, 100, 257, 300] {
+        let mid = n / 2;
+        let items = |lit: &str, odd: &str| (0..n).map(|i| if i == mid { odd.to_string() } else { lit.replace("{}", &i.to_string()) }).collect::<Vec<_>>().join(", ");
+        add(&format!("wide:array-literal:{}", n), format!("pragma solidity 0.8.17;\ncontract C {{ uint256 x; function f(uint256 a, uint256 b) public returns (uint256) {{ uint256[{}] memory t = [{}]; return t[0] * 2; }} }}\n", n, items("{}", "a + b * 4")));
+        add(&format!("wide:array-literal-of-strings:{}", n), format!("pragma solidity 0.8.17;\ncontract C {{ function f(address a) public {{ string[{}] memory t = [{}]; t; }} }}\n", n, items("\"s{}\"", "a == address(0) ? \"z\" : \"n\"")));
+        add(&format!("wide:arguments:{}", n), format!("pragma solidity 0.8.17;\ncontract C {{ uint256[] arr; function f(uint256 a) public {{ g({}); }} }}\n", items("{}", "arr[0] = arr[0] + a")));
+        add(&format!("wide:tuple:{}", n), format!("pragma solidity 0.8.17;\ncontract C {{ function f(uint256 a) public {{ ({}); }} }}\n", items("{}", "a >= 2")));
+        add(&format!("wide:named-arguments:{}", n), format!("pragma solidity 0.8.17;\ncontract C {{ function f(uint256 a) public {{ g({{{}}}); }} }}\n", (0..n).map(|i| if i == mid { format!("k{}: a / 8", i) } else { format!("k{}: {}", i, i) }).collect::<Vec<_>>().join(", ")));
+        add(&format!("wide:bases:{}", n), format!("pragma solidity 0.8.17;\ncontract C is {} {{ }}\n", (0..n).map(|i| if i == mid { format!("B{}(1 * 2)", i) } else { format!("B{}", i) }).collect::<Vec<_>>().join(", ")));
+        add(&format!("wide:enum-and-struct:{}", n), format!("pragma solidity 0.8.17;\ncontract C {{ enum E {{ {} }} struct S {{ {} }} }}\n", (0..n).map(|i| format!("V{}", i)).collect::<Vec<_>>().join(", "), (0..n).map(|i| if i == mid { format!("uint256[2 * 4] f{};", i) } else { format!("uint8 f{};", i) }).collect::<Vec<_>>().join(" ")));
+    }
     v
 }
 
